@@ -58,6 +58,10 @@ func main() {
 			fmt.Println(err)
 			os.Exit(1)
 		}
+		if err := writeBaselineGlobals(w, filepath.Join(filepath.Dir(*wb), "baseline_globals.txt")); err != nil {
+			fmt.Println(err)
+			os.Exit(1)
+		}
 		w.AllFuncs()
 		theWorld = w
 		if err := writeBaselineSigs(w, filepath.Join(filepath.Dir(*wb), "baseline_sigs.json")); err != nil {
@@ -76,6 +80,10 @@ func main() {
 		w.AllFuncs()
 		theWorld = w
 		if os.Getenv("VERIF_CENSUS") != "" {
+			if os.Getenv("VERIF_CENSUS") == "namekeys" {
+				printNameKeyCensus(w)
+				return
+			}
 			if v := os.Getenv("VERIF_CENSUS"); len(v) == 3 {
 				printDerivedList(w, v)
 				return
